@@ -41,7 +41,8 @@ DEPENDS = {
     "C04": _EVENTS_AF + _HEAP + _EA + _MPOOL,          # timer heap, pollfd array growth, record pools
     "C05": _EVENTS_AF + _HEAP + _EA + _MPOOL,
     "C06": _EVENTS + _HEAP[:2] + _MPOOL,               # readiness delivery, per-address timeout timers, cookie pools
-    "C07": _NETRW + _EVENTS[:1],                       # the transport contract (C06) below the buffers
+    "C07": _NETRW + _EVENTS[:1] +                      # the transport contract (C06) below the buffers
+           [("net", "check_net_allocfail")],           # ... and the writer after a write that could not be started (seed C07-n)
     "C08": _NETBUF + _NETRW + [("net", "check_net_connect")],
     "C09": _NETBUF + _NETRW,
     "C11": _HMAC + _SHACFG,                            # the generator is parametric in HMAC-SHA256
